@@ -299,6 +299,7 @@ def mod(a, b):
     return a - b * floordiv(a, b)
 
 
+COMPLEX_ORDER = 'python'
 ORACLE = None     # set by the active Context: formula -> True when it follows from the current hypotheses
 
 
@@ -417,6 +418,13 @@ def cmp(op, a, b):
             return and_(cmp('==', a.re, b.re), cmp('==', a.im, b.im))
         if op == '!=':
             return not_(cmp('==', a, b))
+        if COMPLEX_ORDER == 'numpy':
+            # numpy complex scalars / arrays order lexicographically (real part first); python complex raises TypeError.  The provenance of a value is
+            # not tracked, so a harness that knows its complex values are numpy values opts in (V.COMPLEX_ORDER = 'numpy', reset on every path)
+            a_, b_ = cx(a), cx(b)
+            lt = or_(cmp('<', a_.re, b_.re), and_(cmp('==', a_.re, b_.re), cmp('<', a_.im, b_.im)))
+            eq = and_(cmp('==', a_.re, b_.re), cmp('==', a_.im, b_.im))
+            return {'<': lt, '<=': or_(lt, eq), '>': not_(or_(lt, eq)), '>=': not_(lt)}[op]
         raise PyExc('TypeError', 'ordering of complex numbers')
     if isinstance(a, str) or isinstance(b, str) or a is None or b is None:
         same_type = (isinstance(a, str) and isinstance(b, str)) or (a is None and b is None)
